@@ -633,8 +633,9 @@ def _gen_toggle(world, rnd, kind, bad) -> dict:
     if isinstance(pk, str):
         core.add(pk)
     core.add("area")
-    opt = [k for k in avail if k not in core]
-    pool = opt if opt else avail
+    # core id / position features are only toggled at registry level (C10 finish): user
+    # actions are not defined on a solution without track ids
+    pool = [k for k in avail if k not in core]
     k = rnd.randint(1, max(1, min(3, len(pool))))
     keys = sorted({_pick(rnd, pool) for _ in range(k)}) if pool else []
     if bad:
@@ -688,6 +689,10 @@ def named_nodes(world: World, op: dict) -> list[int]:
         if op["value"]:
             vals.add(int(op["value"]))
         return sorted(vals)
+    if "node" in op:
+        return [op["node"]]
+    if "edge" in op:
+        return list(op["edge"])
     return []
 
 
